@@ -347,6 +347,15 @@ pub fn targeted() -> Vec<(Who, Vec<String>)> {
                 format!("snapshot false {}", odd), format!("snapshot true {}|db", odd), "snapshot false".into(), format!("replicate-snapshot {} false", odd), format!("replicate {} k 1 v", odd)]));
         }
         t.push((who, vec!["replicate nodb k 1 v".into(), "replicate-remove nodb k".into(), "replicate-increment nodb k 1".into(), "replicate-snapshot nodb".into(), "create-db db tok".into()]));
+        // patterns with many wildcards against long repetitive keys (listing, permission lists, conflict listing): matching
+        // must stay cheap whatever the pattern looks like - a matcher that backtracks would keep the handler busy for
+        // good while it holds the database's lock
+        let long_a = "a".repeat(64);
+        let patterns = [format!("{}*b", "*a".repeat(24)), format!("{}b", "a*".repeat(24)), format!("{}*", "*a".repeat(24)), format!("a{}b", "*".repeat(30)), format!("{}c", "*a*b".repeat(12)), "?".repeat(40), format!("[{}]", "a*".repeat(20))];
+        for pat in &patterns {
+            t.push((who, vec![format!("set {} 1", long_a), format!("set {}x 2", long_a), format!("keys {}", pat), format!("ls {}", pat), format!("watch {}", pat), format!("get {}", long_a)]));
+            t.push((who, vec![format!("set {} 1", long_a), "create-user pu pw".into(), format!("set-permissions pu rwi {}|r {}", pat, pat), "use-db db pu pw".into(), format!("get {}", long_a), format!("set {} 3", long_a), format!("increment {}n 1", long_a), format!("keys {}", pat), "keys".into()]));
+        }
     }
     t
 }
